@@ -1127,6 +1127,9 @@ class Interp:
             for k in range(n):
                 o[k] = core.ite(idx == k, v, o[k]) if _ite_able(v, o[k]) else self._fork_store(o, k, idx, v)
             return
+        if type(o).__module__.startswith("contracts."):
+            o[idx] = v  # sidecar model object
+            return
         raise Unsupported("item assignment on %r[%r]" % (type(o).__name__, type(idx).__name__))
 
     def _fork_store(self, o, k, idx, v):
@@ -1587,6 +1590,8 @@ class Interp:
                 raise KeyError(idx)
             return o[idx]
         if is_sym(idx):
+            if type(o).__module__.startswith("contracts."):
+                return o[idx]  # sidecar model objects implement item access over symbolic indices themselves
             raise Unsupported("symbolic index into %r" % type(o))
         return o[idx]
 
